@@ -100,10 +100,29 @@ inline void __v_record_int(const char* label, long v) { std::printf("REC %s %ld\
 inline double __v_exp_lemma_add(double a, double b) { return std::exp(a + b); }
 inline double __v_exp_lemma_inv(double a) { return std::exp(a); }
 inline long __v_concretize(long v) { return v; }
+// exp() calls of the whole native program are intercepted (link flag -Wl,--wrap=exp)
+double __real_exp(double);
+inline double& __v_exp_max() { static double m = -1e300; return m; }
+inline int& __v_exp_zero() { static int z = 0; return z; }
+inline int& __v_exp_n() { static int z = 0; return z; }
+double __wrap_exp(double x);
+inline void __v_check_exp_args(const char* label) {
+    char buf[256];
+    std::snprintf(buf, sizeof buf, "%s: every exp argument <= 0", label);
+    __v_check(__v_exp_n() == 0 || __v_exp_max() <= 1e-12, buf);
+    std::snprintf(buf, sizeof buf, "%s: some exp argument == 0", label);
+    __v_check(__v_exp_zero() > 0, buf);
+}
 }
 
 extern "C" void h_main();
 #ifndef VERIF_NO_MAIN
+extern "C" double __wrap_exp(double x) {
+    if (x > __v_exp_max()) __v_exp_max() = x;
+    if (x <= 1e-12 && x >= -1e-12) __v_exp_zero()++;
+    __v_exp_n()++;
+    return __real_exp(x);
+}
 int main() {
     h_main();
     std::printf("NATIVE checks=%d failed=%d\n", verif_native::st().checks, verif_native::st().failed);
